@@ -32,6 +32,7 @@ BadToks(k, a) ==
   { Shape(g, "null"), Shape(g, "empty"), Shape(g, "0dot"), Shape(g, "1dot"), Shape(g, "2seg"), Shape(g, "lead"), Shape(g, "4seg"), Shape(g, "4segempty"), Shape(g, "4segmid"), Shape(g, "dupsig"),
     HCls(g, "notb64"), HCls(g, "len1mod4"), HCls(g, "notjson"), HCls(g, "arr"), HCls(g, "scalar"), HCls(g, "emptyobj"),
     HCls(g, "nulljson"), HCls(g, "strjson"), HCls(g, "empty"),
+    HAlg(g, "#long:239:x"), HAlg(g, "#long:240:x"), HAlg(g, "#long:241:x"), HAlg(g, "#long:300:x"), HAlg(g, "#long:5000:x"),   \* names that do not fit the message buffer
     HAlg(g, NONE), HAlg(g, "#int"), HAlg(g, "#null"), HAlg(g, "#arr"), HAlg(g, "bogus"), HAlg(g, "hs256"), HAlg(g, "none"),
     PCls(g, "notb64"), PCls(g, "notjson"), PCls(g, "len1mod4"), PCls(g, "empty"), PCls(g, "scalar"),
     WithSig(g, EmptySig), WithSig(g, Sig("flipbit", a, k)), WithSig(g, Sig("garbage", a, k)), WithSig(g, Sig("notb64", a, k)),
@@ -104,7 +105,10 @@ JwkScripts ==
     << LoadOp(<<Def(KEc, "crv", "absent"), Def(KEc, "crv", "unknownstr"), Def(KEc, "x", "notb64"), Def(KEc, "y", "number"),
                Def(KEc, "x", "short"), Def(KEc, "d", "number")>>) >>,
     << LoadOp(<<Def(AsymKey("ed25519a", 1, NONE, NONE), "crv", "absent"), Def(AsymKey("ed25519a", 0, NONE, NONE), "x", "absent"),
-               Def(AsymKey("ed25519a", 0, NONE, NONE), "crv", "unknownstr"), Def(AsymKey("ed25519a", 0, NONE, NONE), "x", "short")>>) >> }
+               Def(AsymKey("ed25519a", 0, NONE, NONE), "crv", "unknownstr"), Def(AsymKey("ed25519a", 0, NONE, NONE), "x", "short")>>) >>,
+    \* unknown names that do not fit the message buffer: the item is still explained
+    << LoadOp(<<Def(KOct, "kty", "unknownlong"), Def(KEc, "crv", "unknownlong"), Def(AsymKey("ed25519a", 0, NONE, NONE), "crv", "unknownlong"),
+               Def(AsymKey("ed448a", 1, NONE, NONE), "crv", "unknownlong"), Def(KRsa, "kty", "unknownlong")>>) >> }
 
 \* value calls return what they store in the error field
 Val(t, n, v, r) == [t |-> t, name |-> n, val |-> v, replace |-> r, jcls |-> NONE, jm |-> <<>>, jcanon |-> NONE]
